@@ -29,7 +29,7 @@ CJSON_PUBLIC(cJSON_bool) cJSON_Compare(const cJSON * const a, const cJSON * cons
 }
 static int lower(int c) { return (c >= 'A' && c <= 'Z') ? c + 32 : c; }
 static int keq(const unsigned char *x, const unsigned char *y, int cs) { size_t i; for (i = 0; i <= TS; i++) { int p = x[i], q = y[i]; if (!cs) { p = lower(p); q = lower(q); } if (p != q) return 0; if (x[i] == 0) return 1; } return 1; }
-static int finite(double d) { return d == d && fabs(d) <= DBL_MAX; }
+static int vf_finite(double d) { return d == d && fabs(d) <= DBL_MAX; }
 
 int main(VF_MAIN_ARGS)
 {
@@ -77,8 +77,8 @@ int main(VF_MAIN_ARGS)
         else switch (ka_) {
         case cJSON_False: case cJSON_True: case cJSON_NULL: spec = 1; break;
         case cJSON_Number:
-            if (finite(IN.da) && finite(IN.db)) { double m = fabs(IN.da) > fabs(IN.db) ? fabs(IN.da) : fabs(IN.db); spec = fabs(IN.da - IN.db) <= m * DBL_EPSILON; }
-            else if (finite(IN.da) != finite(IN.db)) spec = 0;          /* a finite number never equals an infinite or NaN one */
+            if (vf_finite(IN.da) && vf_finite(IN.db)) { double m = fabs(IN.da) > fabs(IN.db) ? fabs(IN.da) : fabs(IN.db); spec = fabs(IN.da - IN.db) <= m * DBL_EPSILON; }
+            else if (vf_finite(IN.da) != vf_finite(IN.db)) spec = 0;          /* a finite number never equals an infinite or NaN one */
             else defined = 0;                                           /* both non-finite: not specified */
             break;
         case cJSON_String: case cJSON_Raw:
